@@ -154,7 +154,8 @@ def make_case(tier, seed, index):
         for _ in range(rnd.randint(0, 8)):
             if rnd.random() < 0.25:
                 if tr == "udp":
-                    connects.append({"k": "sockerr", "errno": rnd.choice(ERRNOS + [24, 13])})
+                    connects.append(rnd.choice([{"k": "sockerr", "errno": rnd.choice(ERRNOS + [24, 13])},
+                                                {"k": "dns", "eai": rnd.choice([-2, -3, -5])}]))
                 else:
                     connects.append(connect_outcome(rnd.choice(["refused", "unreach", "hang", "ok_slow", "ok_late", "ok_sockopt"]), rnd))
             else:
@@ -460,6 +461,14 @@ def run_search(case):
     goodwe, gp, ge = C.goodwe_mods()
     world = World(max_steps=100_000)
     world.net.begin_script([], {"k": "drop"})
+    # ... or the broadcast socket meets an OS-level error: it cannot be created, the send fails, an ICMP error comes back
+    mode = case.get("tag_pos", 0) % 4
+    if mode == 1:
+        world.net.begin_script([], {"k": "drop"}, [{"k": "sockerr", "errno": [13, 101, 24][case.get("tag_pos", 0) % 3]}])
+    elif mode == 2:
+        world.net.begin_script([{"k": "senderr", "errno": 101}], {"k": "drop"})
+    elif mode == 3:
+        world.net.begin_script([{"k": "drop", "then": [{"ev": "icmp", "d": 0.125, "errno": 113}]}], {"k": "drop"})
     state = {}
 
     async def main():
@@ -475,7 +484,7 @@ def run_search(case):
                                f"search_inverters() on a silent network ended with {rec.get('exc')!r}; no valid answer "
                                f"was obtained, so RequestFailedException is expected"))
     callback_violations(violations, world, "udp")
-    return C.package(world, case, violations, ("search", rec["outcome"] if rec else status), True, {"search_runs": 1})
+    return C.package(world, case, violations, ("search", mode, rec["outcome"] if rec else status), True, {"search_runs": 1})
 
 
 def run_ident(case):
